@@ -15,6 +15,7 @@ what they can reach.  Unsigned arithmetic that cannot be shown wrap-free yields 
 """
 from math import gcd
 from .facts import strip, cval, show, callee_name
+from . import lpint as _lpint
 
 UMAX = (1 << 64) - 1
 import os
@@ -115,7 +116,7 @@ _FM_CACHE = {}
 FM_STATS = {"calls": 0, "cached": 0, "gaveup": 0}
 
 
-def infeasible(cons, limit=400):
+def infeasible(cons, limit=600):
     """True when the conjunction of  t.x + c >= 0  (integer unknowns) is shown empty; False = may be satisfiable"""
     FM_STATS["calls"] += 1
     rows = {}
@@ -132,12 +133,90 @@ def infeasible(cons, limit=400):
     if ck in _FM_CACHE:
         FM_STATS["cached"] += 1
         return _FM_CACHE[ck]
-    res = _fm(rows, limit)
-    if res is None:
-        # elimination grew too large: decide over the rationals by simplex (no integer tightening)
-        res = _lp_infeasible(rows)
+    rows = _presolve(rows)
+    if rows is True:
+        res = True
+    elif not rows:
+        res = False
+    # rational infeasibility first (exact integer simplex); when the rationals admit a solution, elimination with
+    # integer tightening may still exclude every integer one
+    elif len(rows) > 6 and _lpint.lp_infeasible(rows):
+        FM_STATS["lp"] = FM_STATS.get("lp", 0) + 1
+        res = True
+    else:
+        res = _fm(rows, limit)
+        if res is None:
+            res = False
     _FM_CACHE[ck] = res
     return res
+
+
+def _presolve(rows):
+    """shrink a system without changing its (integer) satisfiability: rows holding a symbol that occurs with one sign only
+    can always be met and go; a pair  e >= 0, -e >= 0  with a unit coefficient is solved for that symbol and substituted.
+    Returns the reduced {row: c}, or True when a contradiction shows up."""
+    rows = dict(rows)
+    while True:
+        changed = False
+        # one-sided symbols
+        sign = {}
+        for k in rows:
+            for s, v in k:
+                sign[s] = sign.get(s, 0) | (1 if v > 0 else 2)
+        one = {s for s, b in sign.items() if b != 3}
+        if one:
+            n = len(rows)
+            rows = {k: c for k, c in rows.items() if not any(s in one for s, v in k)}
+            if len(rows) != n:
+                changed = True
+        # equalities
+        for k, c in rows.items():
+            nk = tuple((s, -v) for s, v in k)
+            if nk in rows and rows[nk] == -c:
+                piv = None
+                for s, v in k:
+                    if v in (1, -1):
+                        piv = (s, v)
+                        break
+                if piv is None:
+                    continue
+                ps, pv = piv
+                # ps = -(rest + c)/pv  ->  coefficient form: ps = sum(-v/pv * s) - c/pv
+                sub = {s: -v * pv for s, v in k if s != ps}      # pv is +-1: division is multiplication
+                subc = -c * pv
+                new = {}
+                bad = False
+                for k2, c2 in rows.items():
+                    if k2 == k or k2 == nk:
+                        continue
+                    d = dict(k2)
+                    if ps in d:
+                        a = d.pop(ps)
+                        for s, v in sub.items():
+                            d[s] = d.get(s, 0) + a * v
+                        c2 = c2 + a * subc
+                        d = {s: v for s, v in d.items() if v}
+                    d, c2 = _norm(d, c2)
+                    if not d:
+                        if c2 < 0:
+                            bad = True
+                            break
+                        continue
+                    kk = tuple(sorted(d.items()))
+                    if kk not in new or new[kk] > c2:
+                        new[kk] = c2
+                if bad:
+                    return True
+                rows = new
+                changed = True
+                break
+        if not changed:
+            break
+    for k, c in rows.items():
+        nk = tuple((s, -v) for s, v in k)
+        if nk in rows and rows[nk] + c < 0:
+            return True
+    return rows
 
 
 def _lp_infeasible(rows):
@@ -322,22 +401,23 @@ NULL = Ptr(None, Lin.const(0))
 
 
 class ObjPtr:
-    """pointer to a struct object (or to a sub-object: prefix ends with '.')"""
-    __slots__ = ("obj", "prefix", "maybe_null")
+    """pointer to a struct object (or to a sub-object: prefix ends with '.'); boff = byte displacement (container_of)"""
+    __slots__ = ("obj", "prefix", "maybe_null", "boff")
 
-    def __init__(self, obj, prefix="", maybe_null=False):
+    def __init__(self, obj, prefix="", maybe_null=False, boff=0):
         self.obj = obj
         self.prefix = prefix
         self.maybe_null = maybe_null
+        self.boff = boff
 
     def __eq__(self, o):
-        return isinstance(o, ObjPtr) and (self.obj, self.prefix, self.maybe_null) == (o.obj, o.prefix, o.maybe_null)
+        return isinstance(o, ObjPtr) and (self.obj, self.prefix, self.maybe_null, self.boff) == (o.obj, o.prefix, o.maybe_null, o.boff)
 
     def __hash__(self):
-        return hash((self.obj, self.prefix, self.maybe_null))
+        return hash((self.obj, self.prefix, self.maybe_null, self.boff))
 
     def __repr__(self):
-        return "&obj(%s,%s)" % (self.obj, self.prefix)
+        return "&obj(%s,%s)%s" % (self.obj, self.prefix, ("%+d" % self.boff) if self.boff else "")
 
 
 class AddrOf:
@@ -373,10 +453,11 @@ class MemLoc:
 
 
 class State:
-    __slots__ = ("env", "cons", "cache", "trail", "dead", "gen")
+    __slots__ = ("env", "cons", "cache", "trail", "dead", "gen", "joined")
 
     def __init__(self):
         self.gen = {}
+        self.joined = False
         self.env = {}
         self.cons = {}      # key -> (t, c)
         self.cache = {}
@@ -390,6 +471,7 @@ class State:
         s.cache = dict(self.cache)
         s.trail = self.trail
         s.gen = dict(self.gen)
+        s.joined = self.joined
         return s
 
     def add(self, lin):
@@ -462,10 +544,11 @@ class Frame:
 
 
 class Obligation:
-    __slots__ = ("kind", "func", "line", "text", "ok", "detail", "root", "chain")
+    __slots__ = ("kind", "func", "line", "text", "ok", "detail", "root", "chain", "exact")
 
-    def __init__(self, kind, func, line, text, ok, detail, root, chain):
+    def __init__(self, kind, func, line, text, ok, detail, root, chain, exact=True):
         self.kind, self.func, self.line, self.text, self.ok, self.detail, self.root, self.chain = kind, func, line, text, ok, detail, root, chain
+        self.exact = exact
 
 
 COPY_FUNCS = {"memcpy": (0, 1, 2, True), "memmove": (0, 1, 2, False), "__builtin_memcpy": (0, 1, 2, True), "__builtin_memmove": (0, 1, 2, False),
@@ -486,6 +569,18 @@ class LinAnalysis:
         self.modular = set()
         self.policy = None
         self.copy_hook = None
+        self.objrec = {}          # (object, prefix) -> record name
+        self.nobj = 0
+        self.global_inv = {}      # static variable -> (lo, hi): assumed on load, owed on store
+        self.slot_contracts = {}  # function pointer member name -> post(an, st, fr, e, args) -> [(state, value)]
+        self.post = {}            # function name -> post(...) used at call sites instead of the body
+        self._wants = {}
+        self.max_returns = 10
+        self.state_budget = None   # deterministic cut: number of block states processed
+        self.over_budget = False
+        self.cur = None
+        self.sym_nonzero_lo = {}
+        self.lazy = True          # unknown pointers to records are null or a valid object (type invariant)
         self.assumed = set()
         self.obls = []
         self.events = []
@@ -522,9 +617,86 @@ class LinAnalysis:
         r = self.type_range(T)
         if r:
             return self.fresh(st, name, r[0], r[1])
-        if T.get("k") == "ptr":
-            return None
+        if T.get("k") == "ptr" and self.lazy:
+            to = f.T(T.get("to"))
+            if to.get("k") == "record" and to.get("name") in self.prog.records and self.wants_object(to.get("name")):
+                return self.lazy_object(st, f, to.get("name"))
         return None
+
+    def wants_object(self, rec):
+        """records worth modelling as objects: those with an invariant somewhere inside"""
+        c = self._wants.get(rec)
+        if c is None:
+            self._wants[rec] = False
+            c = bool(self.inv_objects(rec, None, ""))
+            if not c:
+                # one pointer hop: a record holding a pointer to a record with an invariant (array -> buffer)
+                r = self.prog.records.get(rec)
+                for fl in (r or {}).get("fields", []):
+                    T = r["unit"].types[fl["t"]] if fl["t"] is not None and fl["t"] >= 0 else {}
+                    if T.get("k") == "ptr":
+                        to = r["unit"].types[T["to"]] if T.get("to") is not None and T["to"] >= 0 else {}
+                        if to.get("k") == "record" and to.get("name") != rec and self.inv_objects(to.get("name"), None, ""):
+                            c = True
+                    elif T.get("k") == "record" and T.get("name") != rec and self.wants_object(T.get("name")):
+                        c = True
+            self._wants[rec] = c
+        return c
+
+    def lazy_object(self, st, f, rec, maybe_null=True, kind="L"):
+        self.nobj += 1
+        obj = "%s%d" % (kind, self.nobj)
+        self.make_object(st, f, rec, obj, "", assume=True)
+        return ObjPtr(obj, "", maybe_null)
+
+    def payload_of(self, st, obj, prefix):
+        """byte area that follows the (sub-)object: its own, or that of the enclosing object it ends"""
+        r = st.env.get(("payload", obj, prefix))
+        if r is not None:
+            return r
+        # last member of its parent?
+        if prefix:
+            parent = prefix[:-1].rsplit(".", 1)[0] + "." if "." in prefix[:-1] else ""
+            member = prefix[:-1].rsplit(".", 1)[-1]
+            prec = self.objrec.get((obj, parent))
+            R = self.prog.records.get(prec) if prec else None
+            if R and R["fields"] and R["fields"][-1]["n"] == member:
+                return self.payload_of(st, obj, parent)
+        # a last member carries it
+        rec = self.objrec.get((obj, prefix))
+        R = self.prog.records.get(rec) if rec else None
+        if R and R["fields"]:
+            fl = R["fields"][-1]
+            T = R["unit"].types[fl["t"]] if fl["t"] is not None and fl["t"] >= 0 else {}
+            if T.get("k") == "record":
+                return st.env.get(("payload", obj, prefix + fl["n"] + "."))
+        return None
+
+    def reroot(self, st, fr, obj, prefix, container, member):
+        """container_of: the object (obj, prefix) is member `member` of a `container` record: give it an enclosing object"""
+        if prefix:
+            return None
+        self.nobj += 1
+        C = "C%d" % self.nobj
+        pre = member + "."
+        for k in list(st.env):
+            if len(k) >= 3 and k[0] in ("f", "payload", "havoc") and k[1] == obj:
+                st.env[(k[0], C, pre + k[2])] = st.env.pop(k)
+        for k, r in list(self.objrec.items()):
+            if k[0] == obj:
+                self.objrec[(C, pre + k[1])] = r
+        self.objrec[(C, "")] = container
+
+        def fix(v):
+            if isinstance(v, ObjPtr) and v.obj == obj:
+                return ObjPtr(C, pre + v.prefix, v.maybe_null, v.boff)
+            return v
+        for k in list(st.env):
+            st.env[k] = fix(st.env[k])
+        for k in list(st.cache):
+            st.cache[k] = fix(st.cache[k])
+        # remaining fields of the container: lazily unknown
+        return C
 
     # ---- entry ----------------------------------------------------------------------------------------------
     def record_of(self, f, tid):
@@ -538,6 +710,7 @@ class LinAnalysis:
         r = self.prog.records.get(rec)
         if r is None:
             return
+        self.objrec.setdefault((obj, prefix), rec)
         u = r["unit"]
         for b in r.get("bases") or []:
             if b.get("name") != rec:
@@ -630,10 +803,12 @@ class LinAnalysis:
         return st, fr
 
     # ---- obligations -----------------------------------------------------------------------------------------
-    def oblige(self, kind, fr, e, ok, detail):
+    def oblige(self, kind, fr, e, ok, detail, st=None):
         f = fr.f
+        st = st if st is not None else self.cur
         self.obls.append(Obligation(kind, f, e.get("l", f.line) if isinstance(e, dict) else f.line,
-                                    show(e, f) if isinstance(e, dict) else str(e), ok, detail, self.root.name if self.root else "", fr.chain()))
+                                    show(e, f) if isinstance(e, dict) else str(e), ok, detail, self.root.name if self.root else "", fr.chain(),
+                                    exact=not (st is not None and st.joined)))
 
     def check_access(self, st, fr, e, ptr, n, what, elem=1):
         """[ptr, ptr+n) inside its region"""
@@ -673,8 +848,11 @@ class LinAnalysis:
             b = e["b"]
             if e.get("arrow"):
                 pv = self.ev(b, st, fr)
-                if isinstance(pv, ObjPtr):
+                if isinstance(pv, ObjPtr) and not pv.boff:
                     return ("f", pv.obj, pv.prefix + e["f"])
+                if isinstance(pv, Ptr) and pv.region is None:
+                    self.oblige("NULLDEREF", fr, e, False, "member %s of a pointer that is null on this path: %s" % (e["f"], " / ".join(st.trail[-8:])))
+                    st.dead = True
                 return None
             bl = self.lval(b, st, fr)
             if bl is None or isinstance(bl, MemLoc):
@@ -717,6 +895,15 @@ class LinAnalysis:
             self.check_access(st, fr, e, loc, Lin.const(loc.size), "read")
             return self.fresh_of_type(st, fr.f, e.get("t"))
         if loc[0] == "g":
+            if loc in st.env and loc[1] != "errno":
+                return st.env[loc]
+            gi = self.global_inv.get(loc[1])
+            if gi:
+                v = self.fresh(st, loc[1], gi[0], gi[1])
+                if len(gi) > 2:
+                    self.sym_nonzero_lo[list(v.t)[0]] = gi[2]
+                st.env[loc] = v
+                return v
             return self.fresh_of_type(st, fr.f, e.get("t"))
         if loc[0] == "o":
             return StructVal(loc[1], loc[2], self.record_of(fr.f, e.get("t")))
@@ -752,6 +939,16 @@ class LinAnalysis:
         if loc[0] == "g":
             if loc[1] == "errno":
                 st.env[loc] = v if v is not None else Lin.const(1)
+            gi = self.global_inv.get(loc[1])
+            if gi:
+                ok = isinstance(v, Lin) and st.entails(v - Lin.const(gi[0])) and st.entails(Lin.const(gi[1]) - v)
+                if ok and len(gi) > 2:
+                    ok = st.entails_eq(v, Lin.const(0)) or st.entails(v - Lin.const(gi[2]))
+                self.oblige("GLOBALINV", fr, e, ok, "" if ok else "value %r stored to %s not shown inside [%d, %d]; path: %s" % (v, loc[1], gi[0], gi[1], " / ".join(st.trail[-8:])))
+                if isinstance(v, Lin):
+                    st.env[loc] = v
+                else:
+                    st.env.pop(loc, None)
             return
         if loc[0] == "o" or isinstance(v, StructVal):
             # struct assignment: copy the fields
@@ -772,6 +969,18 @@ class LinAnalysis:
             st.env.pop(loc, None)
         else:
             st.env[loc] = v
+        if loc[0] == "f" and isinstance(loc[1], str) and loc[1][0] in "PLC":
+            # another symbolic object of the same record may be this one: its field is no longer known
+            path = loc[2]
+            pre = path.rsplit(".", 1)[0] + "." if "." in path else ""
+            fld = path.rsplit(".", 1)[-1]
+            rec = self.objrec.get((loc[1], pre))
+            if rec:
+                for (o2, p2), r2 in self.objrec.items():
+                    if r2 == rec and o2 != loc[1] and isinstance(o2, str) and o2[0] in "PLC":
+                        k2 = ("f", o2, p2 + fld)
+                        if k2 in st.env and st.env[k2] != v:
+                            del st.env[k2]
 
     def conv(self, v, st, f, tid, from_tid=None):
         """value after conversion to type tid"""
@@ -833,6 +1042,8 @@ class LinAnalysis:
                     return Ptr(loc.region, loc.off, loc.maybe_null)
                 return None
             v = self.ev(e["e"], st, fr)
+            if ck == "BitCast":
+                v = self.cast_pointer(v, e, st, fr)
             if ck in ("NoOp", "BitCast", "FunctionToPointerDecay", "CPointerToObjCPointerCast", "UncheckedDerivedToBase", "DerivedToBase", "ConstructorConversion", "UserDefinedConversion"):
                 return v
             if ck in ("IntegralCast", "IntegralToBoolean", "BooleanToSignedIntegral"):
@@ -894,6 +1105,55 @@ class LinAnalysis:
         if k == "complit":
             return self.ev(e["e"], st, fr)
         return self.fresh_of_type(st, f, e.get("t")) if e.get("t") is not None else None
+
+    def cast_pointer(self, v, e, st, fr):
+        """pointer casts that change what the pointer is taken for"""
+        f = fr.f
+        T = f.T(e.get("t"))
+        to = f.T(T.get("to")) if T.get("k") == "ptr" else {}
+        if to.get("k") != "record":
+            return v
+        rec = to.get("name")
+        if isinstance(v, Ptr) and v.region is not None and v.region.kind == "alloc" and v.off.is_const() and v.off.c == 0 and self.wants_object(rec):
+            # fresh allocation taken as a record: a new object (fields unset), what follows the record is its payload
+            done = st.env.get(("asobj", v.region.id))
+            if done is not None:
+                return ObjPtr(done, "", v.maybe_null)
+            self.nobj += 1
+            obj = "N%d" % self.nobj
+            self._name_subobjects(rec, obj, "")
+            sz = to.get("sz", 0) or 0
+            ok = st.entails(v.region.size - Lin.const(sz))
+            self.oblige("ACCESS", fr, e, ok, "" if ok else "allocation of %r bytes taken as %s (%d bytes); path: %s" % (v.region.size, rec, sz, " / ".join(st.trail[-8:])))
+            st.env[("payload", obj, "")] = Region("payload(%s)" % obj, v.region.size - Lin.const(sz), "alloc")
+            st.env[("asobj", v.region.id)] = obj
+            return ObjPtr(obj, "", v.maybe_null)
+        if isinstance(v, ObjPtr) and v.boff:
+            R = self.prog.records.get(rec)
+            sub = self.objrec.get((v.obj, v.prefix))
+            for fl in (R or {}).get("fields", []):
+                FT = R["unit"].types[fl["t"]] if fl["t"] is not None and fl["t"] >= 0 else {}
+                if fl.get("off") == -v.boff and FT.get("k") == "record" and (sub is None or self._same_record(FT.get("name"), sub)):
+                    if (v.obj, "") in self.objrec and v.prefix.endswith(fl["n"] + ".") and self.objrec.get((v.obj, v.prefix[:-len(fl["n"]) - 1])) == rec:
+                        return ObjPtr(v.obj, v.prefix[:-len(fl["n"]) - 1], v.maybe_null)
+                    C = self.reroot(st, fr, v.obj, v.prefix, rec, fl["n"])
+                    if C is not None:
+                        return ObjPtr(C, "", v.maybe_null)
+            return None
+        return v
+
+    @staticmethod
+    def _same_record(a, b):
+        n = lambda x: (x or "").replace("mpt::", "").replace("mpt_", "")
+        return n(a) == n(b)
+
+    def _name_subobjects(self, rec, obj, prefix):
+        self.objrec[(obj, prefix)] = rec
+        R = self.prog.records.get(rec)
+        for fl in (R or {}).get("fields", []):
+            T = R["unit"].types[fl["t"]] if fl["t"] is not None and fl["t"] >= 0 else {}
+            if T.get("k") == "record" and T.get("name") != rec:
+                self._name_subobjects(T.get("name"), obj, prefix + fl["n"] + ".")
 
     def ev_un(self, e, st, fr):
         f = fr.f
@@ -976,6 +1236,19 @@ class LinAnalysis:
             if isinstance(a, Lin) and isinstance(b, Lin):
                 r = a + b if op == "+" else a - b
                 return self.conv(r, st, f, tid)
+            if isinstance(a, ObjPtr) and isinstance(b, Lin) and b.is_const():
+                pt = f.T(e["a"].get("t") if "a" in e else tid)
+                to = f.T(pt.get("to")) if pt.get("k") == "ptr" else {}
+                if to.get("k") == "record":
+                    if op == "+" and b.c == 1 and not a.boff:
+                        reg = self.payload_of(st, a.obj, a.prefix)
+                        if reg is not None:
+                            return Ptr(reg, Lin.const(0), a.maybe_null)
+                    if b.c == 0:
+                        return a
+                    return None
+                # byte arithmetic on an object pointer: remember the displacement (container_of)
+                return ObjPtr(a.obj, a.prefix, a.maybe_null, a.boff + (b.c if op == "+" else -b.c))
             if T.get("k") == "ptr":
                 return None
             return self.fresh_of_type(st, f, tid)
@@ -986,6 +1259,12 @@ class LinAnalysis:
                 return self.conv(b.scale(a.c), st, f, tid)
             if b.is_const():
                 return self.conv(a.scale(b.c), st, f, tid)
+            # (q + c) * p with the product q*p on record
+            for x, y in ((a, b), (b, a)):
+                if len(y.t) == 1 and y.c == 0 and list(y.t.values()) == [1] and len(x.t) == 1 and list(x.t.values()) == [1]:
+                    m = st.env.get(("mul", list(x.t)[0], list(y.t)[0]))
+                    if m is not None:
+                        return self.conv(m + y.scale(x.c), st, f, tid)
             r = self.fresh_of_type(st, f, tid)
             return r
         if op in ("/", "%"):
@@ -1001,13 +1280,30 @@ class LinAnalysis:
                 if op == "/":
                     return q
                 return a - q.scale(b.c)
+            if len(b.t) == 1 and b.c == 0 and list(b.t.values()) == [1] and st.entails(a) and st.entails(b - Lin.const(1)):
+                # quotient by a symbol p: remember the product m = q*p with m <= a <= m + p - 1
+                psym = list(b.t)[0]
+                dk = ("divs", a.key(), psym)
+                qm = st.env.get(dk)
+                if qm is None:
+                    q = self.fresh(st, "q", 0, UMAX)
+                    m = self.fresh(st, "m", 0, UMAX)
+                    st.add(a - m)
+                    st.add(m + b - Lin.const(1) - a)
+                    st.add(a - q)
+                    st.add(m - q)
+                    if st.entails(b - Lin.const(2)):
+                        st.add(m - q.scale(2))
+                    st.env[dk] = (q, m)
+                    st.env[("mul", list(q.t)[0], psym)] = m
+                    qm = (q, m)
+                return qm[0] if op == "/" else a - qm[1]
             r = self.fresh_of_type(st, f, tid)
-            if isinstance(r, Lin) and st.entails(a) and st.entails(b - Lin.const(1)):
-                if op == "/":
-                    st.add(a - r)        # a / b <= a
-                else:
+            if isinstance(r, Lin) and st.entails(a) and st.entails(b):
+                st.add(r)
+                st.add(a - r)            # a / b <= a and a % b <= a for b >= 1 (b == 0 is no defined execution)
+                if op == "%" and st.entails(b - Lin.const(1)):
                     st.add(b - Lin.const(1) - r)     # a % b < b
-                    st.add(a - r)
             return r
         if op in ("<<", ">>"):
             if b.is_const() and 0 <= b.c < 63:
@@ -1020,6 +1316,11 @@ class LinAnalysis:
                     st.add(q.scale(m) + Lin.const(m - 1) - a)
                     return q
             return self.fresh_of_type(st, f, tid)
+        if op in ("&", "|", "^") and a.is_const() and b.is_const():
+            v = a.c & b.c if op == "&" else (a.c | b.c if op == "|" else a.c ^ b.c)
+            return self.conv(Lin.const(v), st, f, tid)
+        if op == "&" and ((a.is_const() and a.c == -1) or (b.is_const() and b.c == -1)):
+            return self.conv(b if a.is_const() and a.c == -1 else a, st, f, tid)
         if op == "&":
             r = self.fresh_of_type(st, f, tid)
             if isinstance(r, Lin):
@@ -1282,6 +1583,9 @@ class LinAnalysis:
         v = self.ev(c, st, fr)
         if isinstance(v, Lin):
             if truth:
+                if len(v.t) == 1 and v.c == 0 and list(v.t)[0] in self.sym_nonzero_lo and st.entails(v):
+                    st.add(v - Lin.const(self.sym_nonzero_lo[list(v.t)[0]]))     # value set of this variable has a gap above zero
+                    return [st] if st.feasible() else []
                 if st.entails(v):
                     st.add(v - Lin.const(1))
                     return [st] if st.feasible() else []
@@ -1347,6 +1651,14 @@ class LinAnalysis:
         # program function: analyse in context
         cands = self.prog.resolve_call(f, e) if e.get("fn") else []
         g = cands[0] if cands else None
+        if g is None and e.get("callee") is not None:
+            ce = strip(e["callee"], all_casts=True)
+            if ce.get("k") == "mem" and ce.get("f") in self.slot_contracts:
+                # call through a function pointer member with a stated contract
+                self.stats["slot_calls"] = self.stats.get("slot_calls", 0) + 1
+                return self.slot_contracts[ce["f"]](self, st, fr, e, args)
+        if g is not None and (g.name in self.post) and fr.depth >= 0 and g is not self.root:
+            return self.post[g.name](self, st, fr, e, args)
         if g is not None and (g.name in self.modular or g.qn in self.modular or (self.policy is not None and self.policy(fr, g) == "modular")):
             return self.modular_call(g, e, args, st, fr)
         if g is not None and not g.nocfg and fr.depth < self.max_depth and len(g.blocks) <= 200 and (self.inline_ok is None or self.inline_ok(g)) \
@@ -1392,6 +1704,14 @@ class LinAnalysis:
                 elif g is not None and i >= len(args):
                     rec = g.d.get("cls")
                     const = bool(g.d.get("const"))
+                elif g is None and e.get("callee") is not None:
+                    CT = f.T(e["callee"].get("t"))
+                    FT = f.T(CT.get("to")) if CT.get("k") == "ptr" else CT
+                    ps = FT.get("params") or []
+                    if i < len(ps):
+                        PT = f.T(ps[i])
+                        to = f.T(PT.get("to")) if PT.get("k") in ("ptr", "ref") else {}
+                        const = bool(to.get("const"))
                 subs = self.inv_objects(rec, a.obj, a.prefix) if rec else []
                 for r2, pre in subs:
                     res = self.invariants[r2](self, st, a.obj, pre, False)
@@ -1409,9 +1729,9 @@ class LinAnalysis:
                         self.assumed.add(name)
             elif isinstance(a, AddrOf):
                 st.env.pop(a.loc, None)
-        T = f.T(e.get("t"))
-        if T.get("k") == "ptr":
-            return [(st, None)]
+        if not known or g is None or g.nocfg:
+            for k in [k for k in st.env if k[0] == "g" and k[1] != "errno"]:
+                del st.env[k]
         return [(st, self.fresh_of_type(st, f, e.get("t")))]
 
     # ---- function bodies -------------------------------------------------------------------------------------
@@ -1506,11 +1826,15 @@ class LinAnalysis:
             b = f.blocks[bid]
             for st in sts:
                 self.stats["states"] += 1
+                if self.state_budget is not None and self.stats["states"] > self.state_budget:
+                    self.over_budget = True
+                    return []
                 cur = [st]
                 retd = False
                 for el in b.el:
                     nxt = []
                     for s in cur:
+                        self.cur = s
                         if el.get("k") == "call":
                             for s2, v in self.transfer_call(el, s, fr):
                                 if "sid" in el:
@@ -1591,7 +1915,39 @@ class LinAnalysis:
                     del s.cache[k]
             out.append((s, v))
         self.stats["paths"] += len(out)
+        if fr.depth > 0 and len(out) > self.max_returns:
+            out = self.merge_returns(out)
         return out
+
+    def merge_returns(self, outs):
+        """too many paths out of a callee: join those that return the same kind of value"""
+        groups = {}
+        for s, v in outs:
+            if isinstance(v, Ptr):
+                k = ("p", v.region.id if v.region is not None else None)
+            elif isinstance(v, ObjPtr):
+                k = ("o", v.obj, v.prefix, v.maybe_null)
+            elif isinstance(v, Lin):
+                k = ("i", -1 if s.entails(-v - Lin.const(1)) else (1 if s.entails(v) else 0), v.key() if v.is_const() else None)
+            else:
+                k = ("n",)
+            groups.setdefault(k, []).append((s, v))
+        res = []
+        for k, g in groups.items():
+            if len(g) == 1:
+                res.append(g[0])
+                continue
+            sts = []
+            for s, v in g:
+                s = s.copy()
+                s.env[("ret",)] = v if isinstance(v, (Lin, Ptr)) else Lin.const(0)
+                sts.append(s)
+            j, _ = self.weak_join(sts)
+            v = j.env.pop(("ret",), None)
+            if not isinstance(g[0][1], (Lin, Ptr)):
+                v = g[0][1]
+            res.append((j, v))
+        return res
 
     # ---- joins -----------------------------------------------------------------------------------------------
     def join_at_head(self, f, fr, bid, old, incoming, rounds):
@@ -1714,6 +2070,7 @@ class LinAnalysis:
         for s in sts[1:]:
             keys &= set(s.env)
         res = State()
+        res.joined = True
         res.trail = ("join",)
         res.gen = {k: r for k, r in sts[0].gen.items() if all(s.gen.get(k) == r for s in sts[1:])}
         ext = [s.copy() for s in sts]
@@ -1824,7 +2181,7 @@ class LinAnalysis:
                     if all(x == difs[0] for x in difs[1:]):
                         cand(hi - hj - difs[0])
                         cand(difs[0] - hi + hj)
-        if not (widen and has_old) and changed:
+        if not (widen and has_old) and changed and (at_head or len(sts) <= 3):
             # what distinguishes a side (its branch conditions), shifted along each changed location:  C +- (h - v) >= 0
             common = set(sts[0].cons)
             for s in sts[1:]:
@@ -1865,14 +2222,23 @@ class LinAnalysis:
                         cand(sv - hs)
                         cand(hs - sv)
         live = self.live_syms(res) if at_head else None
+        jsyms = set()
+        for k, h, lins in changed:
+            jsyms |= h.syms()
         for kk, c in sorted(cands, key=lambda x: (x[0], x[1])):
             if live is not None and not all(s in live for s, v in kk):
                 continue
             if kk in res.cons and res.cons[kk] <= c:
                 continue        # a stronger bound of this row is in already (rows are tried strongest first)
-            lin = Lin(dict(kk), c)
-            if all(s.entails(lin) for s in ext):
-                res.cons[kk] = c if kk not in res.cons else min(res.cons[kk], c)
+            # rows that are literally there (same row, at least as strong) need no elimination
+            need = [s for s in ext if not (kk in s.cons and s.cons[kk] <= c)]
+            if need:
+                if not any(sy in jsyms for sy, v in kk):
+                    continue        # facts about older symbols only: kept when every side states them (cheap and almost always enough)
+                lin = Lin(dict(kk), c)
+                if not all(s.entails(lin) for s in need):
+                    continue
+            res.cons[kk] = c if kk not in res.cons else min(res.cons[kk], c)
         if False and at_head and len(res.cons) > 12:     # tried: rows implied by others that the next round drops are lost
             # drop rows implied by the rest (the widest rows first): keeps later entailment checks small
             es = getattr(self, "entry_syms", ())
